@@ -292,16 +292,19 @@ def foreign_networkx(M, mul=1, add=0, rev=False):
     pins down the result); with rev the edges are inserted in reverse order and, for
     undirected graphs, with swapped endpoints; for simple and directed graphs the
     vertices are also inserted in decreasing order (for bipartite graphs the relabelling
-    follows the order of insertion of the vertices, so that is kept increasing)."""
+    of each side follows the order of insertion of its vertices, so that is kept increasing
+    inside each side, but with rev the whole right side is inserted before the left side)."""
     import networkx
     f = lambda i: mul * i + add
     kind = M.kind
     if kind == 'bipartite':
         X = networkx.Graph()
-        for i in range(1, M.L + 1):
-            X.add_node(f(i), bipartite=0)
-        for j in range(1, M.R + 1):
-            X.add_node(f(M.L + j), bipartite=1)
+        sides = [[(f(i), 0) for i in range(1, M.L + 1)], [(f(M.L + j), 1) for j in range(1, M.R + 1)]]
+        if rev:
+            sides.reverse()          # right side first: networkx then lists the edges as (right, left)
+        for side in sides:
+            for x, colour in side:
+                X.add_node(x, bipartite=colour)
         edges = [(f(u), f(M.L + v)) for (u, v) in sorted(M.E)]
     else:
         X = networkx.DiGraph() if kind == 'directed' else networkx.Graph()
